@@ -9,6 +9,7 @@ use http::{HeaderMap, HeaderName, HeaderValue, Method, Request, Response, Status
 use std::future::{poll_fn, Future};
 use std::pin::Pin;
 use std::sync::{Arc, Mutex};
+use std::task::Poll;
 use std::time::Duration;
 
 // ---------------------------------------------------------------------------------------------
@@ -85,11 +86,13 @@ pub struct StreamSpec {
     pub c_recv: RecvMode,
     pub s_recv: RecvMode,
     pub cancel: Cancel,
+    /// the server handler waits for the stream to be reset (poll_reset) instead of responding
+    pub s_wait_reset: bool,
 }
 
 impl StreamSpec {
     pub fn new(req: MsgSpec, resp: MsgSpec) -> StreamSpec {
-        StreamSpec { req, resp, push: None, c_recv: RecvMode::Immediate, s_recv: RecvMode::Immediate, cancel: Cancel::None }
+        StreamSpec { req, resp, push: None, c_recv: RecvMode::Immediate, s_recv: RecvMode::Immediate, cancel: Cancel::None, s_wait_reset: false }
     }
 }
 
@@ -123,6 +126,12 @@ pub struct Cfg {
     /// server calls set_target_window_size(n) after accepting its first request
     pub s_target_window: Option<u32>,
     pub c_enable_push: Option<bool>,
+    /// at every poll of the client connection the application may drop it instead (a deviation)
+    pub c_drop_conn: bool,
+    /// same for the server connection (between two accepts)
+    pub s_drop_conn: bool,
+    /// server calls abrupt_shutdown(reason) after accepting this many requests
+    pub abrupt_after: Option<(usize, u32)>,
 }
 
 impl Default for Cfg {
@@ -150,6 +159,9 @@ impl Default for Cfg {
             s_set_window: None,
             s_target_window: None,
             c_enable_push: None,
+            c_drop_conn: false,
+            s_drop_conn: false,
+            abrupt_after: None,
         }
     }
 }
@@ -559,6 +571,13 @@ async fn server_stream(k: usize, spec: StreamSpec, req: Request<RecvStream>, mut
     spawner.spawn(&format!("s{}-respond", k), async move {
         let spec = spec2;
         let log = log2;
+        if spec.s_wait_reset {
+            match poll_fn(|cx| respond.poll_reset(cx)).await {
+                Ok(r) => log.push(side, k, Dir::Resp, true, Ev::Reset(u32::from(r))),
+                Err(e) => log.push(side, k, Dir::Resp, true, Ev::Err(format!("poll_reset: {}", err_text(&e)))),
+            }
+            return;
+        }
         for i in 0..spec.resp.interim {
             let r = Response::builder().status(if i == 0 { 103 } else { 102 }).header("x-interim", i.to_string()).body(()).unwrap();
             log.push(side, k, Dir::Resp, true, Ev::Interim(resp_rec(&r)));
@@ -701,6 +720,8 @@ impl T1 {
             let keep = sc.cfg.keep_send_request;
             let ping = sc.cfg.ping;
             let c_set_window = sc.cfg.c_set_window;
+            let c_drop_conn = sc.cfg.c_drop_conn;
+            let sh_c = sh.clone();
             spawner.spawn("connC", async move {
                 let (sr, mut conn) = match b.handshake::<_, Bytes>(io).await {
                     Ok(x) => x,
@@ -732,11 +753,19 @@ impl T1 {
                     }
                 }
                 let keeper = if keep { Some(sr) } else { drop(sr); None };
-                let r = poll_fn(|cx| Pin::new(&mut conn).poll(cx)).await;
+                let r = poll_fn(|cx| {
+                    if c_drop_conn && sh_c.lock().unwrap().choose(tag::FAULT, 2) == 1 {
+                        return Poll::Ready(None);
+                    }
+                    Pin::new(&mut conn).poll(cx).map(Some)
+                })
+                .await;
                 log.conn(Side::Client, match r {
-                    Ok(()) => "conn: ok".to_string(),
-                    Err(e) => format!("conn: {}", err_text(&e)),
+                    Some(Ok(())) => "conn: ok".to_string(),
+                    Some(Err(e)) => format!("conn: {}", err_text(&e)),
+                    None => "conn: dropped by the application".to_string(),
                 });
+                drop(conn);
                 drop(keeper);
             });
         }
@@ -750,6 +779,9 @@ impl T1 {
             let graceful_after = sc.cfg.graceful_after;
             let s_set_window = sc.cfg.s_set_window;
             let s_target_window = sc.cfg.s_target_window;
+            let s_drop_conn = sc.cfg.s_drop_conn;
+            let abrupt_after = sc.cfg.abrupt_after;
+            let sh_s = sh.clone();
             spawner.spawn("connS", async move {
                 let mut conn = match b.handshake::<_, Bytes>(io).await {
                     Ok(c) => c,
@@ -760,7 +792,18 @@ impl T1 {
                 };
                 let mut accepted = 0usize;
                 loop {
-                    match poll_fn(|cx| conn.poll_accept(cx)).await {
+                    let next = poll_fn(|cx| {
+                        if s_drop_conn && sh_s.lock().unwrap().choose(tag::FAULT, 2) == 1 {
+                            return Poll::Ready(None);
+                        }
+                        conn.poll_accept(cx).map(Some)
+                    })
+                    .await;
+                    let Some(next) = next else {
+                        log.conn(Side::Server, "conn: dropped by the application".to_string());
+                        break;
+                    };
+                    match next {
                         Some(Ok((req, respond))) => {
                             accepted += 1;
                             if accepted == 1 {
@@ -782,6 +825,11 @@ impl T1 {
                             }
                             if graceful_after == Some(accepted) {
                                 conn.graceful_shutdown();
+                            }
+                            if let Some((n, code)) = abrupt_after {
+                                if n == accepted {
+                                    conn.abrupt_shutdown(h2::Reason::from(code));
+                                }
                             }
                         }
                         Some(Err(e)) => {
